@@ -308,6 +308,15 @@ func (p *Program) frameCheck(fn *ssa.Function) []frameFinding {
 						}
 					}
 				}
+				if !p.inRepo(callee) && !singleWrite(callee) {
+					// a shared io.Writer handed to code that may write to it several times:
+					// the pieces of one request's output interleave with another's
+					for _, a := range c.Args {
+						if what := sharedWriterIn(fn, a, 0); what != "" && !lockedBefore(ins) {
+							add(ins, "hands the writer reached from "+what+" to "+callee.String()+", which may write to it in several pieces (output of concurrent requests interleaves)")
+						}
+					}
+				}
 				if externalMutator(callee) && len(c.Args) > 0 {
 					kind, root := rootOf(c.Args[0], 0)
 					if shared, what := sharedRoot(fn, kind, root); shared && !lockedBefore(ins) {
@@ -593,4 +602,76 @@ func (p *Program) containerSummaries() map[*ssa.Function]map[int]string {
 	}
 	p.contSumm = summ
 	return summ
+}
+
+// singleWrite: library functions that format into a buffer of their own and
+// hand the result to the writer in one Write call.
+func singleWrite(callee *ssa.Function) bool {
+	switch callee.String() {
+	case "fmt.Fprintf", "fmt.Fprint", "fmt.Fprintln", "io.WriteString":
+		return true
+	}
+	return false
+}
+
+func isWriterType(t types.Type) bool {
+	it, ok := t.Underlying().(*types.Interface)
+	if !ok {
+		return false
+	}
+	for i := 0; i < it.NumMethods(); i++ {
+		if it.Method(i).Name() == "Write" {
+			return true
+		}
+	}
+	return false
+}
+
+// sharedWriterIn: v is, or wraps (interface boxing, struct literal), an
+// io.Writer reached from shared state.
+func sharedWriterIn(fn *ssa.Function, v ssa.Value, depth int) string {
+	if depth > 6 {
+		return ""
+	}
+	if isWriterType(v.Type()) {
+		kind, root := rootOf(v, 0)
+		if shared, what := sharedRoot(fn, kind, root); shared {
+			return what
+		}
+	}
+	switch x := v.(type) {
+	case *ssa.MakeInterface:
+		return sharedWriterIn(fn, x.X, depth+1)
+	case *ssa.ChangeInterface:
+		return sharedWriterIn(fn, x.X, depth+1)
+	case *ssa.UnOp:
+		if a, ok := x.X.(*ssa.Alloc); ok {
+			for _, ref := range *a.Referrers() {
+				fa, ok := ref.(*ssa.FieldAddr)
+				if !ok {
+					continue
+				}
+				for _, r2 := range *fa.Referrers() {
+					if st, ok := r2.(*ssa.Store); ok && st.Addr == fa {
+						if w := sharedWriterIn(fn, st.Val, depth+1); w != "" {
+							return w
+						}
+					}
+				}
+			}
+		}
+	case *ssa.Alloc:
+		for _, ref := range *x.Referrers() {
+			if fa, ok := ref.(*ssa.FieldAddr); ok {
+				for _, r2 := range *fa.Referrers() {
+					if st, ok := r2.(*ssa.Store); ok && st.Addr == fa {
+						if w := sharedWriterIn(fn, st.Val, depth+1); w != "" {
+							return w
+						}
+					}
+				}
+			}
+		}
+	}
+	return ""
 }
